@@ -47,7 +47,20 @@ class Header(_Header):
         self.critical = False
 
     def parse(self, packet):
-        self.length = packet
+        # RFC 4880 5.2.3.1: subpacket lengths have no partial-length form;
+        # first octets 192..254 all introduce a two-octet length
+        fo = packet[0]
+        if fo < 192:
+            self.length = fo
+            del packet[:1]
+
+        elif fo < 255:
+            self.length = ((fo - 192) << 8) + packet[1] + 192
+            del packet[:2]
+
+        else:
+            self.length = self.bytes_to_int(packet[1:5])
+            del packet[:5]
 
         self.typeid = packet[:1]
         del packet[:1]
